@@ -21,8 +21,8 @@ FORBIDDEN = re.compile(r"\bsorry\b|\badmit\b|^axiom |native_decide|bv_decide|imp
 TRUSTED_BASE = [
     "Lean 4.33.0 kernel (lake build); axioms allowed: propext, Classical.choice, Quot.sound — anything else fails the audit",
     "lean/JellyModel/Spec.lean as the reading of the Jelly rules (spec/rdf.proto comments + property statements)",
-    "harness/gen_tables.py (translator for finite facts), harness/gen_translate.py + lean/JellyModel/PyPrelude.lean (translator for "
-    "the lookup classes: Python ast -> Lean, and the meaning it gives to OrderedDict / deque / set / exceptions) and the differential "
+    "harness/gen_tables.py (translator for finite facts), harness/gen_translate.py + gen_translate_flows.py + lean/JellyModel/PyPrelude.lean (translator for "
+    "the lookup classes and the frame-flow classes: Python ast -> Lean, and the meaning it gives to OrderedDict / deque / set / exceptions) and the differential "
     "harness (correspondence check)",
     "the Lean compiler for the driver executable jellydrv; CPython 3.12; protobuf/upb, rdflib modelled not verified",
 ]
@@ -67,11 +67,12 @@ def build(pid: str, modules: list[str], theorems: list[str], tier: str = "quick"
         if rc != 0:
             res.tables_ok = False
         # translator for the lookup classes (Python source -> Lean): a source outside the translated fragment is a broken tie
-        rc, out = sh([sys.executable, str(VERIF / "harness" / "gen_translate.py")], cwd=VERIF / "harness")
-        res.log += out
-        if rc != 0:
-            res.tables_ok = False
-            res.translator_ok = False
+        for script in ("gen_translate.py", "gen_translate_flows.py"):
+            rc, out = sh([sys.executable, str(VERIF / "harness" / script)], cwd=VERIF / "harness")
+            res.log += out
+            if rc != 0:
+                res.tables_ok = False
+                res.translator_ok = False
         rc, out = sh(["lake", "build", "JellyModel", "jellydrv"], cwd=LEAN_DIR)
         res.log += out
         if rc != 0:
